@@ -21,11 +21,11 @@ CHECKS = {
          "Trusts the device/transport models; 'promptly' is 4 read delays + latency + one poll quantum; the stale get-prompt finding of earlier rounds is repaired (fix 8cc3438).",
          "deterministic simulation with loss-fault enumeration (eof/readerr after byte k for every k, write error at every write), crash attribution per run", "5/C06"),
  "C07": ("exploration",
-         "Seeded search over 9 connection states at Close x 3 transport close behaviours x read delays (zero-grace .. graceful) x second Close x every same-instant order of reader/closer/helper/operation hook points x descheduling faults; hang detection is exact (no enabled goroutine, no timer), goroutine leaks are read from the bubble's stacks, panics kill the worker and are attributed; legs F/NF replay discovery scenarios with one never-seen order of two hook points forced (second point held until the first is reached or a bound expires); a free-running -race leg looks for unsynchronised access.",
+         "Seeded search over 10 connection states at Close (incl. > 1 024 unread chunks queued, an operation in flight on a silent device) x 3 transport close behaviours x read delays (zero-grace .. graceful) x second Close x every same-instant order of reader/closer/helper/operation hook points x descheduling faults; hang detection is exact (no enabled goroutine, no timer), goroutine leaks are read from the bubble's stacks, panics kill the worker and are attributed; legs F/NF replay discovery scenarios with one never-seen order of two hook points forced (second point held until the first is reached or a bound expires); a free-running -race leg looks for unsynchronised access.",
          "Trusts the controller's lock model (implLock, queue lock) and the SimTransport close behaviours; NETCONF close states are in the NETCONF leg; the race leg re-runs by seed (not schedule-exact).",
          "deterministic simulation: seeded interleaving of hook points + sched-hold and close-behaviour faults + forced pairwise orders of hook points; separate race-detector leg", "5/C07"),
  "C20": ("exploration",
-         "Every step inside the real queue's methods is a yield point; a seeded controller explores producer/consumer interleavings; histories are checked for linearizability against a list model with porcupine, plus conservation, depth and deadlock-freedom; all sequential histories up to length 6/7 are enumerated; a -race stress leg runs the same two goroutines free.",
+         "Every step inside the real queue's methods is a yield point; a seeded controller explores producer/consumer interleavings; histories are checked for linearizability against a list model with porcupine, plus conservation, depth and deadlock-freedom; all sequential histories up to length 6/7 are enumerated; a -race stress leg runs the same two goroutines free, every other run with a fresh queue per repetition whose short history is checked for linearizability as well; one scenario in four hands out chunks that are windows of the producer's own buffers, which are compared at the end.",
          "Trusts porcupine and the list model; one producer, one consumer as stated.",
          "deterministic simulation of a 2-goroutine queue workload + porcupine linearizability check; exhaustive short sequential histories; race-detector stress leg", "5/C20"),
  "C04": ("exploration",
@@ -38,7 +38,7 @@ CHECKS = {
          "deterministic simulation of in-channel authentication against a login device model + stall-point injection", "5/C10"),
  "C11": ("exploration",
          "A monitor: debug-level logger and channel-log sink attached to generated login dialogues (incl. retries, failures, timeouts) and privilege escalations (device asks / grants / refuses); every logged string and channel-log byte run is searched for the run's secrets (random, with format verbs and regexp metacharacters). Leg S: standard-ssh connections (password / key with passphrase, key files good, missing, garbage or a directory) with the same logger.",
-         "Assumes the device never echoes a secret (property's assumption); platform on-open redaction is exercised in C17's runs.",
+         "Assumes the device never echoes a secret (property's assumption); redacted writes of a platform definition's on-open sequence (default section or a variant) and a hidden first event of a caller's own dialogue are part of the runs; one sched-hold fault deschedules the dialogue's goroutine in front of the write of the secret until just after the deadline.",
          "deterministic simulation (C10/C12 dialogue generators) with a log-capture oracle", "5/C11"),
  "C12": ("exploration",
          "Generated interactive dialogues, plain sends and escalations against a device that pauses and segments its answers; the transport's write log records how many device bytes had been delivered at each write, so typing ahead of the previous response, returning before the echo, or typing the secret anywhere but at the password prompt is visible. One dialogue run in five is preceded by a connection to another device on which the caller uses the same event objects. One base run in 6-12 is followed by its cut enumeration: one sub-run per read-boundary position of its stream (a window of positions in the quick tier, all in the thorough tier), plus close pairs of boundaries.",
@@ -57,7 +57,7 @@ CHECKS = {
          "Trusts the server model's framer; one known finding ('##' inside a payload vs. the read loop's regexp delimiter) is listed in known-findings.json; the raw-frame leg has no schedule dimension.",
          "deterministic simulation of NETCONF sessions + malformed-frame fault injection + direct decoder calls; oracle by construction", "5/C02"),
  "C03": ("exploration",
-         "Generated operations with generated arguments over the version x self-closing x header grid; the server's receive log is split by a strict RFC 6242/4742 decoder, each message must equal Response.Input, be well-formed, and token-equal (byte-equal without self-closing) to the request built by construction from RFC 6241's layout.",
+         "Generated operations with generated arguments over the version x self-closing x header grid; the server's receive log is split by a strict RFC 6242/4742 decoder, each message must equal Response.Input, be well-formed, and token-equal (byte-equal without self-closing) to the request built by construction from RFC 6241's layout. One run in eight has a write that the transport takes at once but returns from later than the operation's timeout (the call may sit it out or give up, the wire stays whole messages).",
          "Trusts the strict decoder, encoding/xml's tokenizer and the construction of expected requests; framing is a pure function, simulation supplies version negotiation, session position and wire concatenation.",
          "deterministic simulation + strict independent decoder + expected requests by construction", "5/C03"),
  "C08": ("exploration",
